@@ -98,7 +98,8 @@ func keyPool(r *rand.Rand, epn int, focus string) []TV {
 			pool = append(pool, tvR(f))
 		}
 		// reals that are numerically equal to integers (one key with the integer for SQLite)
-		for _, f := range []float64{1.0, 2.0, 4.0, float64(e), 9007199254740992.0, 9.223372036854776e18, -9.223372036854776e18} {
+		// ... and the two zeros, equal to each other and to the integer 0
+		for _, f := range []float64{0.0, math.Copysign(0, -1), 1.0, 2.0, 4.0, float64(e), 9007199254740992.0, 9.223372036854776e18, -9.223372036854776e18} {
 			pool = append(pool, tvR(f))
 		}
 		for _, s := range []string{"", "a", "ab", "abc", "b", "B", "é", "1", "1.0", " ", "a\x00b", "zz", strings.Repeat("x", 40)} {
@@ -504,6 +505,7 @@ func runTwin(x *Exec, prop string) {
 		inTxn := false
 		intreal := false // a REAL key numerically equal to an INTEGER key has been written (known finding KF-12)
 		usedInts, usedReals := map[int64]bool{}, map[int64]bool{}
+		posZero, negZero := false, false
 		fail := func(class, format string, a ...interface{}) {
 			if intreal {
 				class += "-intreal"
@@ -526,12 +528,20 @@ func runTwin(x *Exec, prop string) {
 							if f := math.Float64frombits(kv.R); f >= -9223372036854775808.0 && f < 9223372036854775808.0 {
 								usedReals[int64(f)] = true
 							}
+							if kv.R == 0 {
+								posZero = true
+							} else if kv.R == 1<<63 {
+								negZero = true
+							}
 						}
 					}
 					for i := range usedReals {
 						if usedInts[i] {
 							intreal = true
 						}
+					}
+					if posZero && negZero {
+						intreal = true // 0.0 and -0.0: equal keys with different bits, same finding (KF-12)
 					}
 				}
 				switch st.Kind {
